@@ -1,10 +1,12 @@
 import Siot.Lemmas.Export
+import Siot.Lemmas.ExportStore
 import Siot.Gen.Export
 /-
 C15 — Export followed by import reproduces the tree.
 Property theorems only; helper lemmas live in Siot/Lemmas/Export.lean.
-The YAML text between export and import (github.com/goccy/go-yaml) is not modelled; the store-level
-composition (sending the prepared nodes, reading them back) is decided by the correspondence run.
+The YAML text between export and import (github.com/goccy/go-yaml) is not modelled. The store-level composition
+(sending the prepared nodes, reading them back) is `c15_import_stored` for trees without mirrors, and is also
+decided by the correspondence run for all generated trees.
 -/
 namespace Siot.Export
 open Siot Siot.Store
@@ -106,6 +108,115 @@ theorem c15_exports_live_only (isDel : Nat → Bool) (st : St) : ∀ (fuel d : N
     rcases hx with rfl | ⟨c, ⟨hc, _⟩, hx⟩
     · exact ⟨e, he, rfl⟩
     · exact ih (d + 1) c x hc hx
+
+theorem pairwise_mem {α : Type} (R : α → α → Prop) : ∀ (l : List α), l.Pairwise R → ∀ a b, a ∈ l → b ∈ l →
+    a = b ∨ R a b ∨ R b a := by
+  intro l
+  induction l with
+  | nil => intro _ a _ ha; cases ha
+  | cons x l ih =>
+    intro h a b ha hb
+    rw [List.pairwise_cons] at h
+    simp only [List.mem_cons] at ha hb
+    rcases ha with rfl | ha <;> rcases hb with rfl | hb
+    · exact Or.inl rfl
+    · exact Or.inr (Or.inl (h.1 b hb))
+    · exact Or.inr (Or.inr (h.1 a ha))
+    · exact ih h.2 a b ha hb
+
+/-- **C15 (the store holds the imported tree, and exporting it again gives the file back).** Let `f` be the nodes
+ImportNodes sends (after the marker and the id handling), each in the form `exportNodesHelper` writes — points and
+edge points are stored rows with key "0" blanked, no mirrors inside the tree — and none of them known to the store.
+Then every `SendNode` succeeds, and afterwards: (1) the graph has exactly one new edge per node, in the order of the
+file, with the node's parent, id and type, and no old edge changed its ends or type (so every node has the children
+the file gives it, in the same order — `c15_children_order`); (2) for every imported node, the record
+`exportNodesHelper` reads from the store for its edge is the node of the file: same id, type, parent, points and
+edge points (type, key, value, text, tombstone count, time); (3) its deletion mark is the one in the file; (4) all
+other nodes and edges of the store keep their points. -/
+theorem c15_import_stored (st : St) (f : Flat) (now : Int)
+    (hall : ∀ x ∈ f, NodeOk x.2 ∧ Fresh st x.2.id)
+    (hpw : f.Pairwise (fun a b => b.2.id ≠ a.2.id ∧ b.2.id ≠ a.2.parent)) :
+    ∃ st', sendAll st f now = .ok st' ∧
+      st'.edges.map shape = st.edges.map shape ++ f.map shapeOf ∧
+      (∀ x ∈ f, ∀ e ∈ st'.edges, e.down = x.2.id → recOf st' e = x.2 ∧ edgeTomb st' e = tombX x.2.epts) ∧
+      (∀ y, (∀ x ∈ f, x.2.id ≠ y) → ptsOf st' y = ptsOf st y) ∧
+      (∀ u d, (∀ x ∈ f, x.2.id ≠ d) → eptsOf st' u d = eptsOf st u d) := by
+  obtain ⟨st', hs, hsh, hrec, hpt, hep, _⟩ := sendAll_fresh f st now hall hpw
+  refine ⟨st', hs, hsh, ?_, hpt, hep⟩
+  intro x hx e he hd
+  -- which edge is it: not an old one (the node was unknown), so the one of a node of the file with this id: x itself
+  have hm : shape e ∈ st'.edges.map shape := List.mem_map_of_mem (f := shape) he
+  rw [hsh, List.mem_append] at hm
+  have hsx : shape e = shapeOf x := by
+    rcases hm with hm | hm
+    · exfalso
+      simp only [List.mem_map] at hm
+      obtain ⟨e', he', hse⟩ := hm
+      have := ((hall x hx).2.edges e' he').2
+      simp only [shape, Prod.mk.injEq] at hse
+      exact this (hse.2.1.trans hd)
+    · simp only [List.mem_map] at hm
+      obtain ⟨z, hz, hze⟩ := hm
+      have hzid : z.2.id = x.2.id := by
+        simp only [shape, shapeOf, Prod.mk.injEq] at hze
+        exact hze.2.1.trans hd
+      rcases pairwise_mem _ f hpw z x hz hx with h | h | h
+      · rw [← h]; exact hze.symm
+      · exact absurd hzid.symm h.1
+      · exact absurd hzid h.1
+  simp only [shape, shapeOf, Prod.mk.injEq] at hsx
+  obtain ⟨h1, h2, h3⟩ := hrec x hx
+  refine ⟨?_, ?_⟩
+  · unfold recOf
+    rw [hsx.1, hsx.2.1, hsx.2.2, h1, h2]
+  · rw [edgeTomb_eq, hsx.1, hsx.2.1, h3]
+
+/-- **C15 (same shape).** After the import every node — old or new — has its old children followed by the nodes
+of the file that name it as parent, in the order of the file. -/
+theorem c15_children_order (st st' : St) (f : Flat) (h : st'.edges.map shape = st.edges.map shape ++ f.map shapeOf) (p : Bytes) :
+    (st'.edges.filter (fun e => e.up == p)).map (·.down) =
+      (st.edges.filter (fun e => e.up == p)).map (·.down) ++ (f.filter (fun x => x.2.parent == p)).map (·.2.id) := by
+  have key : ∀ es : List Edge, (es.filter (fun e => e.up == p)).map (·.down) =
+      ((es.map shape).filter (fun s => s.1 == p)).map (fun s => s.2.1) := by
+    intro es
+    rw [List.filter_map, List.map_map]
+    rfl
+  have keyf : (f.filter (fun x => x.2.parent == p)).map (·.2.id) =
+      ((f.map shapeOf).filter (fun s => s.1 == p)).map (fun s => s.2.1) := by
+    rw [List.filter_map, List.map_map]
+    rfl
+  rw [key st'.edges, key st.edges, keyf, h, List.filter_append, List.map_append]
+
+/-- non-vacuity of `c15_import_stored`: a two-node file (a point with key "0" written as "", a child) and a store
+    with a root node that does not know the two ids -/
+example :
+    let st : St := { edges := [⟨rootS, [97], [100], 0⟩], root := [97] }
+    let n1 : NodeRec := { id := [98], typ := [100], parent := [97], pts := [{ type := [116], key := [], time := 5, text := [120] }], epts := [] }
+    let n2 : NodeRec := { id := [99], typ := [100], parent := [98], pts := [], epts := [] }
+    let f : Flat := [(0, n1), (1, n2)]
+    (∀ x ∈ f, NodeOk x.2 ∧ Fresh st x.2.id) ∧ f.Pairwise (fun a b => b.2.id ≠ a.2.id ∧ b.2.id ≠ a.2.parent) := by
+  intro st n1 n2 f
+  have e1 : Exported n1 [{ type := [116], key := zeroKey, time := 5, text := [120] }] [] :=
+    ⟨by decide, by decide, (by intro p hp; simp only [List.mem_singleton] at hp; subst hp; exact ⟨by decide, by decide, by decide, by decide⟩),
+      List.pairwise_singleton _ _, (by intro p hp; cases hp), List.Pairwise.nil⟩
+  have e2 : Exported n2 [] [] :=
+    ⟨by decide, by decide, (by intro p hp; cases hp), List.Pairwise.nil, (by intro p hp; cases hp), List.Pairwise.nil⟩
+  have fr : ∀ x : Bytes, x ≠ [97] → x ≠ rootS → Fresh st x := by
+    intro x h1 h2
+    refine ⟨?_, rfl, fun _ => rfl, h1⟩
+    intro e he
+    simp only [st, List.mem_singleton] at he
+    subst he
+    exact ⟨fun h => h2 h.symm, fun h => h1 h.symm⟩
+  refine ⟨?_, ?_⟩
+  · intro x hx
+    simp only [f, List.mem_cons, List.not_mem_nil, or_false] at hx
+    rcases hx with rfl | rfl
+    · exact ⟨⟨⟨_, _, e1⟩, by decide, by decide, by decide⟩, fr _ (by decide) (by decide)⟩
+    · exact ⟨⟨⟨_, _, e2⟩, by decide, by decide, by decide⟩, fr _ (by decide) (by decide)⟩
+  · simp only [f, List.pairwise_cons, List.mem_singleton, forall_eq, List.not_mem_nil, false_imp_iff, implies_true,
+      List.Pairwise.nil, and_true]
+    decide
 
 /-- non-vacuity: a tree with a mirror and a cross-reference gets consistent new ids -/
 example :
